@@ -127,7 +127,9 @@ def gen_cases(rng, tier):
         out.append("c18 m%d mode=import cbe=%s zip=%s expect=reject what=checksum" % (k, be, dst)); k += 1
         # (c) extra entries with escaping names
         vault = "00000000-0000-4000-8000-000000000001"
-        for evil in ["files/%s/../../../../escape_a.txt" % vault, "files/%s/..\\..\\..\\..\\escape_b.txt" % vault, "/escape_c.txt",
+        for evil in ["files/%s/../../../../escape_a.txt" % vault, "files/%s/../../../../../../escape_a6.txt" % vault,
+                     "files/%s/x/../../../../../../../../../escape_a9.txt" % vault, "files/%s/../../../../../../../../../../escape_a10.txt" % vault,
+                     "blobs/%s/%s/%s/../../../../../../../../../escape_f9" % (acct, vault, vault), "files/%s/..\\..\\..\\..\\escape_b.txt" % vault, "/escape_c.txt",
                      "../escape_d.txt", "files/../../escape_e.txt", "blobs/%s/%s/%s/../../../../../escape_f" % (acct, vault, vault),
                      "files/%s/sub/./../x/\u0001ctl" % vault, "C:\\escape_g.txt", "files/%s/%s" % (vault, "y" * 400)]:
             dst = os.path.join(wd, "m%d.zip" % k)
@@ -166,7 +168,7 @@ def oracle(case, obs):
         return [{"oracle": "no_result", "detail": "no import observation"}]
     ikv = dict(x.split("=", 1) for x in imp.split()[1:] if "=" in x)
     files = [f for f in tree.split(" ", 1)[1].split(",") if f] if " " in tree else []
-    outside = [f for f in files if not f.startswith("target/")]
+    outside = [f for f in files if not f.startswith("o1/o2/o3/o4/o5/o6/target/")]
     if outside:
         fails.append({"oracle": "no_escape", "detail": "import wrote outside the target directory: %s" % outside[:4]})
     exp = kv.get("expect")
